@@ -4,16 +4,31 @@
 #include <GeographicLib/TransverseMercator.hpp>
 #include <GeographicLib/PolarStereographic.hpp>
 #include <GeographicLib/Math.hpp>
+#include <GeographicLib/MGRS.hpp>
+#include <GeographicLib/GeoCoords.hpp>
+#include <GeographicLib/DMS.hpp>
+#include <GeographicLib/Utility.hpp>
+#include <GeographicLib/Constants.hpp>
+#include <iostream>
+#include <sstream>
+#include <fstream>
+#include "C04_doc.hpp"
+#define bad doc::bad_
 using namespace GeographicLib; using namespace gv;
 
 static const double SENT = 7.25e77;
 static std::string b(bool x) { return x ? "1" : "0"; }
+#include "C04_glue.hpp"
 
 static Reg r_std("stdzone", [](const Args& a) {
   double lat = unhx(a[0]), lon = unhx(a[1]); int sz = std::atoi(a[2].c_str()); int z = -99;
   std::string e = guarded([&] { z = UTMUPS::StandardZone(lat, lon, sz); });
-  if (!e.empty()) { emit(e); if (e != "!E") bad("foreign-exception", e); return; }
+  if (!e.empty()) { emit(e); if (e != "!E") bad("foreign-exception", e); if (sz >= -4 && sz <= 60) bad("documented-zone-rule", "StandardZone throws for a zone request inside [-4, 60]"); return; }
   emit(std::to_string(z));
+  // UTMUPS.hpp, zonespec: the rule written out with the documented numbers (no table of the library involved)
+  if (!(sz >= -4 && sz <= 60)) { bad("documented-zone-rule", "StandardZone accepts a zone request outside [-4, 60]"); return; }
+  int want = sz >= 0 || sz == -4 ? sz : (!(std::isfinite(lat) && std::isfinite(lon)) ? -4 : (std::fabs(lat) <= 90 ? doc::zone_rule(lat, lon, sz == -2) : z));
+  if (z != want) bad("documented-zone-rule", "StandardZone = " + std::to_string(z) + ", the documented rule gives " + std::to_string(want));
 });
 
 static Reg r_fwd("utmfwd", [](const Args& a) {
@@ -31,10 +46,42 @@ static Reg r_fwd("utmfwd", [](const Args& a) {
   if (!e.empty()) {
     emit(e); if (e != "!E") bad("foreign-exception", e);
     if (zone != -77 || x != SENT || y != SENT || g != SENT || k != SENT) bad("output-modified-on-throw", "UTMUPS::Forward threw but changed an output argument");
+    // documented: the only reasons to throw are |lat| > 90, an illegal zone request, and coordinates outside the documented range
+    if (std::fabs(lat) <= 90 && sz >= -4 && sz <= 60 && z1 >= 0 && std::isfinite(kx) && std::isfinite(ky)) {
+      bool utmp = z1 > 0, np = !std::signbit(lat);
+      // (the implementation also refuses, with its own message, points more than 60 degrees from the central meridian / 20 degrees from the pole;
+      //  the header does not mention these two tests — near a pole they are not implied by the ranges — so they are left out of the oracle)
+      bool refused = utmp ? !(std::fabs(Math::AngDiff(doc::central_meridian(z1), lon)) <= 60) : std::fabs(lat) < 70;
+      if (!refused && doc::strictly_inside(doc::range(utmp, np, mg), kx + doc::false_easting(utmp), ky + doc::false_northing(utmp, np)))
+        bad("documented-range", "UTMUPS::Forward throws although the projected point lies strictly inside the documented range");
+    }
     return;
   }
   emit(std::to_string(zone) + " " + b(northp) + " " + hx(x) + " " + hx(y) + " " + hx(g) + " " + hx(k));
+  // the INVALID conventions: a NaN or infinite coordinate (no explicit zone requested) or an INVALID request gives zone INVALID and NaN results; nothing else does
+  if ((sz == -4 || ((!std::isfinite(lat) || !std::isfinite(lon)) && sz < 0)) != (zone == -4)) bad("documented-invalid", "UTMUPS::Forward: zone is INVALID for valid input, or not INVALID for NaN input / an INVALID request");
+  if (zone == -4 && !(std::isnan(x) && std::isnan(y) && std::isnan(g) && std::isnan(k))) bad("documented-invalid", "UTMUPS::Forward: INVALID zone with non-NaN results");
+  // a finite position inside [-90, 90] never converts to NaN coordinates: it converts or the call throws
+  if (zone >= 0 && std::isfinite(lat) && std::isfinite(lon) && std::fabs(lat) <= 90 && (std::isnan(x) || std::isnan(y) || std::isnan(g) || std::isnan(k)))
+    bad("forward-finite", "UTMUPS::Forward returns NaN coordinates for a finite position (zone " + std::to_string(zone) + ")" +
+        (std::fabs(lat) < 1e-50 && zone > 0 && Math::AngDiff(doc::central_meridian(zone), lon) == -90 ? " [class:singular-point-west]" : ""));
   if (zone < 0 || !std::isfinite(lat) || !std::isfinite(lon) || std::isnan(x)) return;
+  {
+    // documented facts about the result, from the header's numbers alone
+    bool utmp = zone > 0; doc::Rect R = doc::range(utmp, northp, mg);
+    if (!doc::inside_closed(R, x, y)) bad("documented-range", "UTMUPS::Forward returns coordinates outside the documented range");
+    if (northp != !std::signbit(lat)) bad("documented-hemisphere", "UTMUPS::Forward: hemisphere is not that of the latitude");
+    if (std::isfinite(kx) && z1 == zone) {
+      double wx = kx + doc::false_easting(utmp), wy = ky + doc::false_northing(utmp, northp);
+      if (!(std::fabs(x - wx) <= 2 * ulp(wx) && std::fabs(y - wy) <= 2 * ulp(wy)))
+        bad("documented-false-origin", "UTMUPS::Forward: coordinates are not the projection's plus the documented false easting/northing (" + std::to_string(doc::false_easting(utmp)) + ", " + std::to_string(doc::false_northing(utmp, northp)) + ")");
+    }
+    if (utmp && Math::AngDiff(doc::central_meridian(zone), lon) == 0 && std::fabs(lat) < 89) {
+      // on the central meridian 6 zone - 183: easting exactly 500 km, no convergence, scale 0.9996
+      if (x != 500e3 || !(std::fabs(g) <= 1e-13) || !(std::fabs(k - doc::K0_UTM) <= 2.4e-13)) bad("documented-central-meridian", "UTMUPS::Forward on the central meridian of zone " + std::to_string(zone) + ": x, gamma, k are not 500000, 0, 0.9996");
+    }
+    if (!utmp && std::fabs(lat) == 90 && !(x == 2000e3 && y == 2000e3 && std::fabs(k - doc::K0_UPS) <= 1e-14)) bad("documented-pole", "UTMUPS::Forward at a pole: x, y, k are not 2000000, 2000000, 0.994");
+  }
   // closure: Reverse(Forward) = id to about 5 nm (x4), when the point is in the ordinary domain of the zone
   double lat2, lon2, g2, k2;
   std::string e2 = guarded([&] { UTMUPS::Reverse(zone, northp, x, y, lat2, lon2, g2, k2, mg); });
@@ -68,6 +115,7 @@ static Reg r_rev("utmrev", [](const Args& a) {
     return;
   }
   emit(hx(lat) + " " + hx(lon) + " " + hx(g) + " " + hx(k));
+  if ((zone == -4 || std::isnan(x) || std::isnan(y)) != (std::isnan(lat) && std::isnan(lon) && std::isnan(g) && std::isnan(k))) bad("documented-invalid", "UTMUPS::Reverse: NaN results exactly for an INVALID zone or NaN coordinates");
   if (std::isnan(lat) || zone < 0) return;
   // closure Forward(Reverse) = id (5 nm x4) for points within the ordinary domain
   int z2; bool n2; double x2, y2, g2, k2;
@@ -98,6 +146,19 @@ static Reg r_transfer("transfer", [](const Args& a) {
   if (!e.empty() && (xo != SENT || yo != SENT || zo != -77)) bad("output-modified-on-throw", "UTMUPS::Transfer threw but changed an output argument");
   if (!e.empty()) { if (e != "!E") bad("foreign-exception", e); return; }
   if (zin < 0 || zo < 0) return; // INVALID in, NaN out
+  if (std::isfinite(xin) && std::isfinite(yin)) {
+    if (doc::strictly_outside(doc::range(zin > 0, nin, false), xin, yin) && zin != zout) bad("documented-range", "UTMUPS::Transfer accepts input coordinates strictly outside the documented range");
+    if (zin == zout) {
+      // same zone: nothing but the documented shift of 10^7 m on a hemisphere change (never for UPS)
+      double wy = nin == nout ? yin : yin + (nout ? -doc::SHIFT : doc::SHIFT);
+      if (zin == 0 && nin != nout) bad("documented-shift", "UTMUPS::Transfer moved UPS coordinates to the other hemisphere");
+      else if (zo != zin || bits(xo) != bits(xin) || bits(yo) != bits(wy)) bad("documented-shift", "UTMUPS::Transfer within a zone is not the identity up to the 10^7 m northing shift");
+    } else if (std::isfinite(xo) && std::isfinite(yo)) {
+      // the output is in the range of Forward; after a hemisphere relabelling in the range continued across the equator
+      doc::Rect R = doc::range(zo > 0, nout, false);
+      if (!doc::inside_closed(R, xo, yo)) bad("documented-range", "UTMUPS::Transfer returns coordinates outside the documented range");
+    }
+  }
   // consistency with converting through geographic coordinates
   double lat, lon; int z2; bool n2; double x2, y2;
   std::string e2 = guarded([&] { UTMUPS::Reverse(zin, nin, xin, yin, lat, lon); UTMUPS::Forward(lat, lon, z2, n2, x2, y2, zout == UTMUPS::MATCH ? zin : zout); });
@@ -111,23 +172,31 @@ static Reg r_transfer("transfer", [](const Args& a) {
 static Reg r_dz("decodezone", [](const Args& a) {
   std::string s = unhs(a[0]); int z = -77; bool n = true;
   std::string e = guarded([&] { UTMUPS::DecodeZone(s, z, n); });
-  if (!e.empty()) { emit(e); if (e != "!E") bad("foreign-exception", e); if (z != -77) bad("output-modified-on-throw", "DecodeZone"); return; }
+  int dz = -99; bool dn = false; bool legal = doc::zonestr(s, dz, dn);
+  if (!e.empty()) { emit(e); if (e != "!E") bad("foreign-exception", e); if (z != -77) bad("output-modified-on-throw", "DecodeZone");
+    if (legal) bad("documented-zone-grammar", "DecodeZone rejects " + hs(s) + ", legal by the documented grammar"); return; }
   emit(std::to_string(z) + " " + b(n));
+  if (!legal) bad("documented-zone-grammar", "DecodeZone accepts " + hs(s) + ", illegal by the documented grammar");
+  else if (z != dz || n != dn) bad("documented-zone-grammar", "DecodeZone(" + hs(s) + ") = (" + std::to_string(z) + ", " + b(n) + "), documented meaning (" + std::to_string(dz) + ", " + b(dn) + ")");
 });
 static Reg r_ez("encodezone", [](const Args& a) {
   int z = std::atoi(a[0].c_str()); bool n = a[1] == "1", ab = a[2] == "1"; std::string s;
   std::string e = guarded([&] { s = UTMUPS::EncodeZone(z, n, ab); });
-  if (!e.empty()) { emit(e); return; }
+  if (!e.empty()) { emit(e); if ((z >= 0 && z <= 60) || z == -4) bad("documented-zone-grammar", "EncodeZone throws for a zone in [0, 60] / INVALID"); return; }
   emit(hs(s));
+  if (!((z >= 0 && z <= 60) || z == -4)) bad("documented-zone-grammar", "EncodeZone accepts a zone outside [0, 60]");
+  else if (s != doc::zonestr_of(z, n, ab)) bad("documented-zone-grammar", "EncodeZone(" + std::to_string(z) + ") = " + s + ", documented form " + doc::zonestr_of(z, n, ab));
   int z2; bool n2; std::string e2 = guarded([&] { UTMUPS::DecodeZone(s, z2, n2); });
   if (!e2.empty() || z2 != z || (z >= 0 && n2 != n)) bad("zone-string-roundtrip", "DecodeZone(EncodeZone) != id for " + s);
 });
 static Reg r_ed("epsgdec", [](const Args& a) {
   int e = std::atoi(a[0].c_str()), z; bool n; UTMUPS::DecodeEPSG(e, z, n); emit(std::to_string(z) + " " + b(n));
+  { int dz; bool dn; doc::epsg_decode(e, dz, dn); if (z != dz || n != dn) bad("documented-epsg", "DecodeEPSG(" + std::to_string(e) + ") = (" + std::to_string(z) + ", " + b(n) + "), EPSG registry (" + std::to_string(dz) + ", " + b(dn) + ")"); }
   if (z >= 0 && UTMUPS::EncodeEPSG(z, n) != e) bad("epsg-roundtrip", "EncodeEPSG(DecodeEPSG) != id");
 });
 static Reg r_ee("epsgenc", [](const Args& a) {
   int z = std::atoi(a[0].c_str()); bool n = a[1] == "1"; int e = UTMUPS::EncodeEPSG(z, n); emit(std::to_string(e));
+  if (e != doc::epsg_of(z, n)) bad("documented-epsg", "EncodeEPSG(" + std::to_string(z) + ", " + b(n) + ") = " + std::to_string(e) + ", EPSG registry " + std::to_string(doc::epsg_of(z, n)));
   if (e >= 0) { int z2; bool n2; UTMUPS::DecodeEPSG(e, z2, n2); if (z2 != z || n2 != n) bad("epsg-roundtrip", "DecodeEPSG(EncodeEPSG) != id"); }
 });
 
@@ -142,6 +211,7 @@ static double nasty_lon(Rng& r) {
   double base = k < 3 ? 6.0 * r.irange(-30, 30) : k == 3 ? r.pick(std::vector<double>{3, 9, 21, 33, 42, 0, 6, 12, 180, -180}) : r.range(-180, 180);
   if (k == 1) base = nextup(base, r.irange(1, 2)); if (k == 2) base = nextdn(base, r.irange(1, 2));
   if (k == 5) base += 360.0 * r.irange(-2, 2);
+  if (k == 4 && r.coin()) base = 6.0 * r.irange(1, 60) - 183 + 360.0 * r.irange(-1, 1);   // a central meridian
   if (k == 6 && r.irange(0, 20) == 0) base = r.pick(std::vector<double>{1e17, -1e17, 540, -540, INFINITY});
   return base;
 }
@@ -159,6 +229,14 @@ void gv::generate(const std::string& tier, uint64_t seed) {
     int szf = i % 2 == 0 ? -1 : (i % 4 == 1 ? -2 : (z0 > 0 ? std::max(1, std::min(60, z0 + r.irange(-1, 1))) : r.irange(-4, 60)));
     run("utmfwd", {hx(lat), hx(lon), std::to_string(szf), b(r.coin())});
     stratum(std::string("fwd-") + (szf == -1 ? "standard" : szf == -2 ? "utm" : "explicit"));
+    if (i % 16 == 3) {
+      // a requested zone whose central meridian is 60, 90, 120 or 180 degrees away (either side, +-ulp), on and next to the equator and at high latitude
+      int zf = r.irange(1, 60); double d = r.pick(std::vector<double>{60, 90, 120, 180, 59.999999, 45}) * (r.coin() ? 1 : -1);
+      double lo = doc::central_meridian(zf) + d; int u = r.irange(-1, 1); lo = u > 0 ? nextup(lo) : u < 0 ? nextdn(lo) : lo;
+      double la = r.pick(std::vector<double>{0.0, -0.0, 1e-9, -1e-9, 1e-300, 45, -45, 80, 89, 89.999999, 90, -90});
+      run("utmfwd", {hx(la), hx(lo), std::to_string(zf), b(r.coin())});
+      stratum("fwd-far-zone");
+    }
     if (i < 4) sample(current_op());
     // reverse: on / just inside / outside the rectangles
     int zone = r.irange(0, 5) == 0 ? 0 : r.irange(1, 60); if (i % 97 == 0) zone = r.pick(std::vector<int>{-4, -1, 61, -5});
@@ -190,6 +268,7 @@ void gv::generate(const std::string& tier, uint64_t seed) {
       run("epsgdec", {std::to_string(r.irange(0, 3) ? r.irange(32590, 32770) : r.irange(-10, 70000))});
       run("epsgenc", {std::to_string(r.irange(-5, 62)), b(r.coin())});
     }
+    gen_glue(r, i, lat, lon);
   }
   if (tier == "thorough") {
     // exhaustive: all zone strings over a small alphabet up to length 4; all EPSG in a window
